@@ -505,7 +505,8 @@ def rule_tt2_memory_units(report, prog, rule='C01-R6'):
         f = prog.func('nfc.tag.tt2.Type2TagMemoryReader.' + fn)
         loops = [l for l in walk_no_nested(f.node) if isinstance(l, ast.While)]
         if len(loops) != 1 or not isinstance(loops[0].test, ast.Compare) or not isinstance(loops[0].test.left, ast.Name):
-            raise AnalysisError('%s: %s: single while loop over the byte index not found' % (rule, f.qname))
+            report.deficits.append('%s: %s: single while loop over the byte index not found' % (rule, f.qname))
+            continue
         var = loops[0].test.left.id
         defs = {}
         for s in ast.walk(loops[0]):
@@ -518,7 +519,8 @@ def rule_tt2_memory_units(report, prog, rule='C01-R6'):
         sel = [c for c in calls(loops[0]) if norm(c.func) == 'self._tag.sector_select']
         xfer = [c for c in calls(loops[0]) if norm(c.func) == 'self._tag.' + cmd]
         if len(sel) != 1 or len(xfer) != 1:
-            raise AnalysisError('%s: %s: sector_select / %s call not found' % (rule, f.qname, cmd))
+            report.deficits.append('%s: %s: sector_select / %s call not found' % (rule, f.qname, cmd))
+            continue
         n += 1
         report.check(len(sel[0].args) == 1 and _shift_of(sel[0].args[0], defs, var) == 10, rule,
                      key(f.qname, 'sector = byte index >> 10'), f.loc(sel[0]),
